@@ -66,6 +66,21 @@ func (f *cpyMem) Seek(offset int64, whence int) (int64, error) {
 	return n, nil
 }
 
+// cpyMemAt is a cpyMem which also implements io.ReaderAt (like os.File).  Writer.Get reads
+// stream data through ReadAt; a sink without it cannot hand out streams.
+type cpyMemAt struct{ cpyMem }
+
+func (f *cpyMemAt) ReadAt(p []byte, off int64) (int, error) {
+	if off < 0 || off >= int64(len(f.Data)) {
+		return 0, io.EOF
+	}
+	n := copy(p, f.Data[off:])
+	if n < len(p) {
+		return n, io.EOF
+	}
+	return n, nil
+}
+
 // cpyWriteOnly hides Seek, so that the writer has to use indirect /Length
 // objects for streams whose length is not known when the dictionary is written.
 type cpyWriteOnly struct{ buf bytes.Buffer }
@@ -100,6 +115,8 @@ type cpyNode struct {
 	ovObj      pdf.Native
 	ovEdit     map[pdf.Name]pdf.Object
 	virtStm    bool // override object which behaves like a member of an object stream
+	aesLen     int  // >0: stored length+1 of an AES stream cut down in the file (1: empty, 2..32: 1..31 bytes)
+	selfFilter int  // 1: /Filter refers to the stream itself, 2: to another stream (3, 4: the same for /DecodeParms)
 	meta       bool // stream with /Type /Metadata
 	noTruth    bool // the stream's filter chain is bogus on purpose: it does not decode to data
 }
@@ -133,13 +150,16 @@ type cpyCase struct {
 	longHead        pdf.Reference // its first reference
 	fixedProg       bool          // corpus case: prog is given, not generated
 	tgtOpen         bool          // a stream is open on the target Writer during the whole program
+	aesBroken       bool          // an AES stream was cut so that it cannot be decrypted: Copy has to fail with a malformed-file error
+	srcWriter       bool          // the Copier reads from the source *Writer* (not closed, not reopened)
+	srcNoReaderAt   bool          // ... whose sink can Read and Seek but has no ReadAt
 	srcMeta         int           // catalog metadata of the source: 0 none, 1 ordinary (compressed, encrypted), 2 Plaintext (/EncryptMetadata false when encrypted)
 	catalogMeta     pdf.Reference // the source catalog's /Metadata reference (0: none), set by buildSource
 }
 
 // cpySrc is the Getter handed to the Copier: the real Reader plus the overrides.
 type cpySrc struct {
-	r     *pdf.Reader
+	r     pdf.Getter // the real Reader, or the source Writer itself ("Writer as source")
 	nodes map[pdf.Reference]*cpyNode
 	gets  int // number of Get calls; a runaway recursion is stopped by a (recoverable) panic
 }
@@ -171,6 +191,10 @@ func (s *cpySrc) Get(ref pdf.Reference, canObjStm bool) (pdf.Native, error) {
 	}
 	obj, err := s.r.Get(ref, canObjStm)
 	if err != nil {
+		if !pdf.IsMalformed(err) {
+			// a failure of the Getter which is not a defect of the file: the model's read error
+			return nil, fmt.Errorf("%w (%v)", errInjected, err)
+		}
 		return nil, err
 	}
 	if n != nil && n.ov == ovStream {
@@ -411,6 +435,20 @@ func genCpyCase(seed uint64, thorough bool) *cpyCase {
 	}
 	cs.srcSeekable = r.P(2, 3)
 	cs.tgtSeekable = r.P(4, 5)
+	if r.P(1, 8) {
+		// NewCopier(target, sourceWriter): a Writer is a Getter as long as its sink can seek
+		cs.srcWriter = true
+		cs.srcSeekable = true
+		cs.srcMeta = 0
+		delete(cs.features, "catalog-metadata")
+		delete(cs.features, "catalog-metadata-plaintext")
+		delete(cs.features, "encrypt-metadata-false")
+		cs.srcNoReaderAt = r.Bool()
+		cs.features["writer-as-source"] = true
+		if cs.srcNoReaderAt {
+			cs.features["writer-as-source-no-readerat"] = true
+		}
+	}
 	cs.tgtHuman = r.P(1, 6)
 	if r.P(1, 4) {
 		cs.tgtOpen = true
@@ -554,6 +592,72 @@ func genCpyCase(seed uint64, thorough bool) *cpyCase {
 		}
 	}
 
+	// one object reached directly and through 1-3 alias objects ("N 0 obj M 0 R endobj"), also
+	// around a cycle: all these paths must end at one copy
+	if r.P(1, 3) && len(cs.nodes) > 0 {
+		x := Pick(r, cs.nodes)
+		if x.kind != nkFree {
+			cs.features["alias-shared"] = true
+			cur := x.ref
+			hub := pdf.Dict{"Direct": x.ref}
+			m := 1 + r.Intn(3)
+			for j := 0; j < m; j++ {
+				a := &cpyNode{ref: pdf.NewReference(uint32(2+len(cs.nodes)), 0), kind: nkObj, obj: cur}
+				cs.nodes = append(cs.nodes, a)
+				pool = append(pool, a.ref)
+				cur = a.ref
+				hub[pdf.Name(fmt.Sprintf("Alias%d", j+1))] = a.ref
+			}
+			if r.Bool() {
+				hub["Again"] = pdf.Array{cur, x.ref, cur}
+			}
+			h := &cpyNode{ref: pdf.NewReference(uint32(2+len(cs.nodes)), 0), kind: nkObj, obj: hub}
+			cs.nodes = append(cs.nodes, h)
+			pool = append(pool, h.ref)
+			// a cycle through the last alias
+			if r.Bool() {
+				switch x.kind {
+				case nkObj:
+					if d, ok := x.obj.(pdf.Dict); ok {
+						d["Self"] = cur
+						d["Hub"] = h.ref
+						cs.features["alias-cycle"] = true
+					}
+				case nkStream:
+					x.dict["Self"] = cur
+					cs.features["alias-cycle"] = true
+				}
+			}
+		}
+	}
+	// AES streams whose stored data is empty or too short to hold IV and padding (files of other
+	// producers store empty streams with /Length 0)
+	if cs.srcPw != "" && cs.srcVer >= pdf.V1_6 && !cs.srcWriter && r.P(1, 6) {
+		for _, nd := range cs.nodes {
+			if nd.kind == nkStream && nd.ov == ovNone && len(nd.filters) == 0 && nd.dict["Filter"] == nil {
+				nd.data = nil
+				nd.aesLen = 1 + Pick(r, []int{0, 0, 0, 16, 1, 5, 15, 17, 20, 31})
+				cs.features["aes-short-stream"] = true
+				break
+			}
+		}
+	}
+	// /Filter or /DecodeParms which refers to a stream (itself or another one): the source is
+	// defective, the copy has to fail cleanly
+	if r.P(1, 25) {
+		var sts []*cpyNode
+		for _, nd := range cs.nodes {
+			if nd.kind == nkStream && nd.aesLen == 0 {
+				sts = append(sts, nd)
+			}
+		}
+		if len(sts) > 0 {
+			Pick(r, sts).selfFilter = 1 + r.Intn(4)
+			cs.features["filter-is-stream"] = true
+			cs.mayFail = true
+		}
+	}
+
 	// owners: pages, XObjects, images, ... point to their metadata stream with /Metadata
 	var metas []pdf.Reference
 	for _, nd := range cs.nodes {
@@ -604,7 +708,7 @@ func genCpyCase(seed uint64, thorough bool) *cpyCase {
 				cs.mayFail = true
 			}
 		case nkStream:
-			if r.P(1, 3) {
+			if nd.aesLen == 0 && nd.selfFilter == 0 && r.P(1, 3) {
 				// make /Filter and/or /DecodeParms indirect: the values live in other nodes
 				nd.ov = ovStream
 				cs.features["indirect-filter"] = true
@@ -650,11 +754,15 @@ type cpyBuilt struct {
 func buildSource(cs *cpyCase) (*cpyBuilt, error) {
 	r := &Rand{s: cs.seed ^ 0xabcdef}
 	var out io.Writer
-	mem := &cpyMem{}
+	memAt := &cpyMemAt{}
+	mem := &memAt.cpyMem
 	wo := &cpyWriteOnly{}
-	if cs.srcSeekable {
-		out = mem
-	} else {
+	switch {
+	case cs.srcWriter && cs.srcNoReaderAt:
+		out = mem // Read, Write, Seek - no ReadAt
+	case cs.srcSeekable:
+		out = memAt
+	default:
 		out = wo
 	}
 	opt := &pdf.WriterOptions{UserPassword: cs.srcPw}
@@ -744,22 +852,41 @@ func buildSource(cs *cpyCase) (*cpyBuilt, error) {
 			return nil, fmt.Errorf("source WriteCompressed: %w", err)
 		}
 	}
-	if err := w.Close(); err != nil {
-		return nil, fmt.Errorf("source Close: %w", err)
+	var rd *pdf.Reader
+	var src pdf.Getter
+	var data []byte
+	if cs.srcWriter {
+		// the Writer stays open and is the Getter
+		src = w
+	} else {
+		if err := w.Close(); err != nil {
+			return nil, fmt.Errorf("source Close: %w", err)
+		}
+		data = mem.Data
+		if !cs.srcSeekable {
+			data = wo.buf.Bytes()
+		}
+		for _, nd := range cs.nodes {
+			if nd.aesLen > 0 {
+				if !cutAESStream(data, nd.ref, nd.aesLen-1) {
+					nd.aesLen = 0 // unexpected layout: leave the (empty, well-formed) stream alone
+					delete(cs.features, "aes-short-stream")
+				} else if k := nd.aesLen - 1; k != 0 && k != 16 {
+					cs.aesBroken = true // IV cut short or no whole blocks: the stream cannot be decrypted
+				}
+			}
+		}
+		rd, err = pdf.NewReader(bytes.NewReader(data), int64(len(data)), &pdf.ReaderOptions{Password: cs.srcPw, ErrorHandling: pdf.ErrorHandlingReport})
+		if err != nil {
+			return nil, fmt.Errorf("source NewReader: %w", err)
+		}
+		src = rd
 	}
-	data := mem.Data
-	if !cs.srcSeekable {
-		data = wo.buf.Bytes()
-	}
-	rd, err := pdf.NewReader(bytes.NewReader(data), int64(len(data)), &pdf.ReaderOptions{Password: cs.srcPw, ErrorHandling: pdf.ErrorHandlingReport})
-	if err != nil {
-		return nil, fmt.Errorf("source NewReader: %w", err)
-	}
-	b := &cpyBuilt{cs: cs, srcData: data, reader: rd, S: &cpySrc{r: rd, nodes: map[pdf.Reference]*cpyNode{}}}
+	b := &cpyBuilt{cs: cs, srcData: data, reader: rd, S: &cpySrc{r: src, nodes: map[pdf.Reference]*cpyNode{}}}
 	for _, nd := range cs.nodes {
 		b.S.nodes[nd.ref] = nd
 	}
-	if cs.srcMeta != 0 {
+	if cs.srcMeta != 0 && rd != nil {
 		if root, ok := rd.GetMeta().Trailer["Root"].(pdf.Reference); ok {
 			if cat, err := rd.Get(root, true); err == nil {
 				if cd, ok := cat.(pdf.Dict); ok {
@@ -818,11 +945,42 @@ func buildSource(cs *cpyCase) (*cpyBuilt, error) {
 		}
 		cs.longHead = cur.(pdf.Reference)
 	}
+	// /Filter or /DecodeParms referring to a stream
 	for _, nd := range cs.nodes {
-		if nd.kind != nkStream || nd.ov != ovStream {
+		if nd.kind != nkStream || nd.selfFilter == 0 {
 			continue
 		}
-		obj, err := rd.Get(nd.ref, true)
+		target := nd.ref
+		if nd.selfFilter%2 == 0 {
+			for _, o := range cs.nodes {
+				if o.kind == nkStream && o != nd {
+					target = o.ref
+				}
+			}
+		}
+		key := pdf.Name("Filter")
+		if nd.selfFilter > 2 {
+			key = "DecodeParms"
+		}
+		var val pdf.Object = target
+		switch r.Intn(3) {
+		case 0:
+			val = pdf.Array{target}
+		case 1:
+			val = newVirt(target) // through one more reference
+		}
+		nd.ov = ovStream
+		nd.ovEdit = map[pdf.Name]pdf.Object{key: val}
+	}
+	for _, nd := range cs.nodes {
+		if nd.kind != nkStream || nd.ov != ovStream || nd.selfFilter != 0 {
+			continue
+		}
+		if cs.srcWriter && cs.srcNoReaderAt {
+			nd.ov = ovNone // the stream cannot be read back from this sink at all
+			continue
+		}
+		obj, err := src.Get(nd.ref, true)
 		if err != nil {
 			return nil, fmt.Errorf("source Get stream: %w", err)
 		}
@@ -861,6 +1019,35 @@ func buildSource(cs *cpyCase) (*cpyBuilt, error) {
 		}
 	}
 	return b, nil
+}
+
+// cutAESStream rewrites, inside the written file, the empty AES stream `ref` (stored as 32 bytes:
+// IV and one block of padding) as a stream of k < 32 stored bytes, keeping every offset:
+// "/Length 32" becomes "/Length k " and "endstream" moves up, followed by blanks.
+func cutAESStream(data []byte, ref pdf.Reference, k int) bool {
+	head := []byte(fmt.Sprintf("\n%d %d obj", ref.Number(), ref.Generation()))
+	i := bytes.Index(data, head)
+	if i < 0 || k < 0 || k >= 32 {
+		return false
+	}
+	end := bytes.Index(data[i:], []byte("endobj"))
+	if end < 0 {
+		return false
+	}
+	obj := data[i : i+end]
+	l := bytes.Index(obj, []byte("/Length 32"))
+	st := bytes.Index(obj, []byte("stream\n"))
+	if l < 0 || st < 0 || l > st {
+		return false
+	}
+	j := st + len("stream\n")
+	if j+32+10 > len(obj) || !bytes.HasPrefix(obj[j+32:], []byte("\nendstream")) {
+		return false
+	}
+	copy(obj[l:], fmt.Sprintf("/Length %-2d", k))
+	tail := append([]byte("\nendstream"), bytes.Repeat([]byte(" "), 32-k)...)
+	copy(obj[j+k:], tail)
+	return true
 }
 
 // ---- the source as the copier sees it ----
@@ -921,7 +1108,7 @@ func (b *cpyBuilt) sourceView(start []pdf.Reference) []string {
 func (b *cpyBuilt) rawData(ref pdf.Reference, st *pdf.Stream) ([]byte, bool) {
 	// x.crypt != nil: the file is encrypted and the object is not exempt (with /EncryptMetadata
 	// false the Reader reads the catalog's /Metadata stream, and only that one, without decryption)
-	enc := b.cs.srcPw != "" && !pdf.VerifReaderUnencrypted(b.reader, ref)
+	enc := b.cs.srcPw != "" && (b.reader == nil || !pdf.VerifReaderUnencrypted(b.reader, ref))
 	rc, err := pdf.RawStreamReader(b.S, st)
 	if err == nil {
 		raw, err2 := io.ReadAll(rc)
